@@ -82,7 +82,7 @@ class Env:
             "legal_min_length": [1, 0], "legal_max_length": [3, 2], "legal_min_cost": [1, 0], "legal_max_cost": [4],
             "legal_min_score": [0], "legal_max_score": [5], "legal_min_total_score": [1, 0],
             "legal_max_total_score": [10],
-            "sat_class": [Cost_Sat, Cardinality_Sat],
+            "sat_class": [Cost_Sat, Cardinality_Sat],          # id 1 = Cost_Sat (what the as_sat op asks for)
             "details": [det],
         }
         self.defaults = {
@@ -334,6 +334,24 @@ def apply_op(env, cur, other, els, op):
         return cur.update({els[i]: c for i, c in arg})
     if name == "as_multiprofile":
         return cur.as_multiprofile()
+    if name == "as_sat":
+        from pabutools.election.satisfaction import SatisfactionProfile, SatisfactionMultiProfile, Cost_Sat
+        if arg == 0:
+            return cur.as_sat_profile(Cost_Sat)
+        if arg == 1:
+            if isinstance(cur, Counter):
+                return SatisfactionMultiProfile(multiprofile=cur, sat_class=Cost_Sat)
+            return SatisfactionProfile(profile=cur, sat_class=Cost_Sat)
+        return SatisfactionMultiProfile(profile=cur, sat_class=Cost_Sat)
+    if name == "mutate":
+        return _mutate(env, cur, arg)
+    if name == "clear":
+        return cur.clear()
+    if name == "pop":
+        cur.pop()
+        return None
+    if name == "remove_satisfied":
+        return cur.remove_satisfied({"s0": 1, "s1": 1, "": 1}, [env.projects[0]])
     if name == "ctor_val":
         return type(cur)(cur, ballot_validation=bool(arg))
     if name == "inst_mut":
@@ -346,6 +364,37 @@ def apply_op(env, cur, other, els, op):
             env.instance.difference_update(list(env.instance))
         return None
     raise ValueError("unknown op " + str(op))
+
+
+def _mutate(env, cur, meth):
+    """attribute-neutral mutators of the builtin base types (non-profile classes); always return None here"""
+    p = env.projects
+    n = type(cur).__name__
+    if isinstance(cur, set):
+        {"add": lambda: cur.add(p[3]), "discard": lambda: cur.discard(p[0]), "update": lambda: cur.update([p[1]])}[meth]()
+        return None
+    if n in ("SatisfactionProfile", "SatisfactionMultiProfile"):
+        from pabutools.election.satisfaction import Cost_Sat
+        prof = env.P.ApprovalProfile([env.B.ApprovalBallot([p[3]], name="s0")], instance=env.instance)
+        sat = Cost_Sat(env.instance, prof, prof[0] if n == "SatisfactionProfile" else prof[0].frozen())
+        if n == "SatisfactionProfile":
+            {"append": lambda: cur.append(sat), "extend": lambda: cur.extend([sat]),
+             "insert": lambda: cur.insert(0, sat)}[meth]()
+        else:
+            {"append": lambda: cur.append(sat), "update": lambda: cur.update([sat]),
+             "__setitem__": lambda: cur.__setitem__(sat, 2)}[meth]()
+        return None
+    if n == "BudgetAllocation":
+        {"append": lambda: cur.append(p[3]), "extend": lambda: cur.extend([p[2], p[3]]),
+         "insert": lambda: cur.insert(0, p[1])}[meth]()
+        return None
+    if isinstance(cur, dict) and not n.startswith("Frozen"):
+        v = None if n == "OrdinalBallot" else 2
+        {"__setitem__": lambda: cur.__setitem__(p[3], v), "setdefault": lambda: cur.setdefault(p[2], v),
+         "update": lambda: cur.update({p[1]: v}), "pop": lambda: cur.pop(p[0], None),
+         "append": lambda: cur.append(p[3])}[meth]()
+        return None
+    raise TypeError("no mutator %s for %s" % (meth, n))
 
 
 def run_case(case):
